@@ -104,7 +104,7 @@ def run_link(c, slots, carrier=None, pol=None, keep=None, chirp_ok=False):
     lo, hi = 0.7 * R, min(2 * R, 0.45 * fs)
     BW = lo + c["bw"] * (hi - lo)
     if c["pdmode"] == "ase-only":
-        y = lib(D.PD, m, BW, c["r"], 300.0, c["R_load"], "ase-only", 0.0)
+        y = lib(D.PD, m, BW, c["r"], 300.0, c["R_load"], ["ase-only", "ASE-only", "Ase-Only", "ASE-ONLY"][c["seed"] % 4], 0.0)   # documented: any letter case
     else:
         y = lib(D.PD, m, BW, c["r"], 0, c["R_load"], "thermal-only", 0.0)
     check(type(y) is electrical_signal and len(y) == N, "pd-output-shape", "")
